@@ -152,6 +152,26 @@ qb_log_file_open(const char *filename)
 	return t->pos;
 }
 
+/*
+ * Disabling a file target closes its stream (_file_close); enabling it
+ * opens the file again.  The caller has paused the logging thread.
+ */
+int32_t
+qb_log_file_enable(struct qb_log_target *t)
+{
+	FILE *fp;
+
+	if (t->close != _file_close || t->instance != NULL) {
+		return 0;
+	}
+	fp = fopen(t->filename, "a+");
+	if (fp == NULL) {
+		return -errno;
+	}
+	t->instance = fp;
+	return 0;
+}
+
 void
 qb_log_file_close(int32_t t)
 {
